@@ -474,8 +474,11 @@ def finish(cfg, rep):
         with open(os.path.join(VERIF, "scratch", "proved_%s.json" % cfg.PROP), "w") as f:
             json.dump(dict(property=cfg.PROP, tree=repo_root(), head=git_head(repo_root()), discharged=rep.proved_names,
                            loop_headers=getattr(rep, "loop_headers", {})), f)
-    os.makedirs(os.path.join(VERIF, "evidence"), exist_ok=True)
-    with open(os.path.join(VERIF, "evidence", "%s.json" % cfg.PROP), "w") as f:
+    # evidence/ describes runs against /repo itself; a run against another tree ($VERIF_REPO, used for seeded changes
+    # and refactorings in scratch worktrees) leaves its report under scratch/ so that it never masks the real one
+    evdir = os.path.join(VERIF, "evidence") if os.path.realpath(repo_root()) == "/repo" else os.path.join(VERIF, "scratch", "evidence_other_tree")
+    os.makedirs(evdir, exist_ok=True)
+    with open(os.path.join(evdir, "%s.json" % cfg.PROP), "w") as f:
         json.dump(ev, f, indent=1, default=str)
     if rep.crashes:
         code = 3
